@@ -5,6 +5,21 @@ checks = {
  "C01": dict(level="exploration", technique="differential runtime monitor: byte-equality oracle over corpus + seeded comment mutations, 5 entry points",
    text="Runs the real decorate/restore/print pipeline through all five public entry points on every gofmt-canonical file of the toolchain source tree (quick: stratified sample) and on seeded comment/blank-line mutations of them, comparing the printed bytes with the input. Holds only on the inputs executed; witnesses are reduced and classified by dst-independent syntactic predicates so known findings never mask a new root cause.",
    note="trusts go/format (go1.23.5) as the definition of gofmt-canonical; corpus = GOROOT/src + /repo; generated inputs on which gofmt is not idempotent are inconclusive", ref="5/C01"),
+ "C06": dict(level="exploration", technique="reflection monitors: deep-equality, storage-disjointness, scramble-and-recheck, print equality, shared-node rejection",
+   text="Clones reflection-built instances of all 54 node types (every field non-zero) and densely decorated corpus trees; the monitor's own reflection walker checks structural equality, disjoint pointers/maps/backing arrays, that mutating either side leaves an independent snapshot of the other unchanged, that substituting clones prints identically, and that one node at two places makes RestoreFile panic while a clone prints.",
+   note="FuncDecl.Type.Decs.Before/After and File.Unresolved are outside the statement (never consulted by printing / part of object resolution) and are cleared in the inputs", ref="5/C06"),
+ "C11": dict(level="exploration", technique="online map-law monitor over Decorator.Map and Restorer.Map (inverse, totality, type agreement, edge preservation, nil keys)",
+   text="Decorates and restores corpus files in four configurations (plain, Extras, goast import resolution, edited paths forcing selector synthesis) and checks the node-map laws against independent ast.Inspect / dst.Inspect enumerations.",
+   note="entries for detached object declarations are allowed as extra keys; laws are enforced for every node inside either tree", ref="5/C11"),
+ "C13": dict(level="exploration", technique="differential traversal monitor against go/ast.Inspect and a reflection-derived child list; bracket-discipline and pruning checkers",
+   text="Compares dst.Inspect/Walk visit logs with go/ast's traversal of the source ast (through the node map), with the reflection pre-order, with the well-nestedness of enter/nil events, and with the exact visited set under seeded pruning predicates, on corpus files, ParseDir packages and filled instances of every node type with each optional child absent in turn.",
+   note="trees with a nil mandatory child are malformed and excluded (go/ast itself calls Visit(nil) on them)", ref="5/C13"),
+ "C15": dict(level="exploration", technique="crash monitor: recover() + child-process death attribution over seeded byte corruptions and a hostile input list",
+   text="Feeds corrupted, truncated, spliced and hostile byte strings to every parse entry point and prints every tree returned; any panic, process death, (nil,nil) result or unreported parser error is a violation.",
+   note="deaths of a worker process are attributed through a per-case journal and the shard is resumed after the culprit", ref="5/C15"),
+ "C19": dict(level="exploration", technique="model-based history checking against a []string reference model with arena snapshots for aliasing",
+   text="Random operation histories on one Decorations list are stepped in lock-step with a plain []string model; caller-side slices live in a shared arena that is snapshotted around each call and later mutated by the caller to expose retained aliases; rendering is compared with All().",
+   note="writes through the slice returned by All() are treated as legitimate writes to the node's own storage", ref="5/C19"),
 }
 m = {
  "version": 1,
